@@ -359,6 +359,7 @@ package jrpc2
 //@   ensures[C08:wellformed] wfServer(result) && result.ch == nil && result.err == nil
 //@   ensures[C06:capacity] semCap(result.sem) >= 1 && (opts != nil && opts.Concurrency >= 1 ==> semCap(result.sem) == opts.Concurrency)
 //@   ensures forall(k string, !in(result.used, k) && !in(result.call, k))
+//@   ensures[C08:owned-state-fresh] isnew(result.used) && isnew(result.call) && isnew(result.mu)
 //@   at return#1 ghostset idsIssued(s) = 0
 
 // Start: panics (documented) if the server is running; otherwise installs the
